@@ -118,7 +118,7 @@ func VerifDistribute() {
 	good := 0
 	if len(resps) == len(dos) {
 		for _, r := range resps {
-			if r.U[0] == 1 && r.U[1] == 200 && string(r.B[0]) == "PUT" {
+			if r.U[0] == 1 && r.U[1] == 200 && r.U[2] == 0 && string(r.B[0]) == "PUT" {
 				good++
 			}
 		}
